@@ -31,7 +31,10 @@ Definition float_text (single : bool) (f : spec_float) : list Z :=
         let fp := scaled mod 10 ^ k in
         let fdigits := dec_digits 25 fp in
         let pad := repeat 48 (Z.to_nat k - length fdigits) in
-        dec_digits 25 ip ++ [46] ++ pad ++ fdigits
+        (* a SINGLE is shown with the fewest digits that identify it: beyond 6 significant digits
+           that may be fewer than the exact expansion (1499997.75 is shown as 1499997.8) *)
+        if single && Nat.ltb 6 (length (dec_digits 25 ip) + Z.to_nat k) then poison
+        else dec_digits 25 ip ++ [46] ++ pad ++ fdigits
       else poison
   | _ => poison
   end.
